@@ -7,7 +7,7 @@
    another user's tokens additionally requires the administrator's own session to carry a
    hardware-token factor.  Automation certificates can be minted only by an administrator or
    automation administrator and only for configured automation identities. *)
-From KM Require Import Base.Bytes Base.Tactics Model.Auth Model.AuthGate Model.Routes Model.Authz Model.AdminCache Proofs.Authz Proofs.AdminCache Proofs.AuthzGate Proofs.AuthzObs.
+From KM Require Import Base.Bytes Base.Tactics Model.Auth Model.AuthGate Model.Routes Model.Authz Model.AdminCache Proofs.Authz Proofs.AdminCache Proofs.AuthzGate Proofs.AuthzObs Proofs.AuthzIdentity.
 Import ListNotations.
 
 (* every authorization test: allowed means own data, or administrator (and a U2F session
@@ -46,6 +46,32 @@ Theorem c08_rolecert : forall c s r,
     is_automation_identity c (r_target r) (r_dir_target r) /\
     fst (step c s r) = s.
 Proof. exact rolecert_sound. Qed.
+
+(* "only for configured automation identities", taken literally.  Names are byte strings and an entry of
+   automation_users is a name, never a pattern: for every configuration, every requester (any credential,
+   any administrator verdict), every requested identity and every parameter, a role certificate is only
+   issued for an identity that IS an element of the configured list — byte for byte; no character of an
+   entry ('.', '*', '_', '%', a blank ...) stands for anything but itself, letter case counts, a prefix or
+   an extension of an entry is another name — unless the directory's answer about the identity (an input)
+   names a configured automation group, the statement's other way of being an automation identity. *)
+Theorem c08_rolecert_exact_identity : forall c s r,
+  r_op r = RoleCert -> snd (step c s r) = ROk ->
+  (forall gs g, r_dir_target r = Some gs -> In g gs -> ~ In g (automation_user_groups c)) ->
+  In (r_target r) (automation_users c).
+Proof. exact rolecert_exact_identity. Qed.
+
+(* read the other way: an identity that is not literally configured is refused whoever asks, and
+   nothing is stored; and the empty identity is never served, even if "" is an entry of the list *)
+Theorem c08_rolecert_unconfigured_refused : forall c s r,
+  r_op r = RoleCert ->
+  ~ In (r_target r) (automation_users c) ->
+  (forall gs g, r_dir_target r = Some gs -> In g gs -> ~ In g (automation_user_groups c)) ->
+  snd (step c s r) <> ROk /\ fst (step c s r) = s.
+Proof. exact rolecert_unconfigured_refused. Qed.
+
+Theorem c08_rolecert_identity_nonempty : forall c s r,
+  r_op r = RoleCert -> snd (step c s r) = ROk -> r_target r <> [].
+Proof. exact rolecert_identity_nonempty. Qed.
 
 (* a success response (the page with somebody's profile, the user list, a changed token) is
    only ever produced for an authenticated request that passed its handler's test *)
@@ -347,6 +373,24 @@ Example ex_rolecert_ok :
            r_name := 0; r_proof := PMalformed; r_adm := false; r_dir_target := Some [];
            r_params_ok := true |}) = ROk.
 Proof. reflexivity. Qed.
+
+(* "deploy.bot" is configured: the automation administrator gets a certificate for deploy.bot and for
+   nothing that merely looks like it — deploy-bot, Deploy.bot, "deploy.bot " and deploy are other names *)
+Definition u_deploy_dot_bot : name := [100; 101; 112; 108; 111; 121; 46; 98; 111; 116]%N.
+Definition ex_cfg_dot : cfg :=
+  {| admin_users := [u_admin]; admin_groups := [50%N]; automation_users := [u_deploy_dot_bot; u_svc];
+     automation_user_groups := [51%N]; automation_admins := [u_autoadm];
+     webui_required := N.lor bPassword (N.lor bU2F bTOTP); disable_normalisation := false |}.
+Definition ex_rolecert_req (id : name) : request :=
+  {| r_cred := KMCert u_autoadm; r_post := true; r_op := RoleCert; r_target := id; r_index := None;
+     r_name := 0; r_proof := PMalformed; r_adm := false; r_dir_target := Some [52%N]; r_params_ok := true |}.
+Example ex_rolecert_literal_identity :
+  snd (step ex_cfg_dot ex_store (ex_rolecert_req u_deploy_dot_bot)) = ROk /\
+  snd (step ex_cfg_dot ex_store (ex_rolecert_req [100; 101; 112; 108; 111; 121; 45; 98; 111; 116]%N)) = RBad /\
+  snd (step ex_cfg_dot ex_store (ex_rolecert_req [68; 101; 112; 108; 111; 121; 46; 98; 111; 116]%N)) = RBad /\
+  snd (step ex_cfg_dot ex_store (ex_rolecert_req (u_deploy_dot_bot ++ [32]%N))) = RBad /\
+  snd (step ex_cfg_dot ex_store (ex_rolecert_req [100; 101; 112; 108; 111; 121]%N)) = RBad.
+Proof. repeat split. Qed.
 
 (* the role memo: an automation administrator asks for role certificates (answered yes) and is
    still no administrator a moment later; a memo shared between the two questions and keyed by
